@@ -122,6 +122,14 @@ CHECKS.update({
                 technique="TLA+ model (sequential machine + lock protocol) checked by TLC; behaviours replayed on DbImpl; hook-gated schedule and stress for the concurrent clause"),
 })
 
+CHECKS.update({
+    "C18": dict(cat="model_checking", ref="DESIGN.md 5/C18, 7", note="Trusted base: TLC; the version-decoding driver; Go's race detector for the data-race clause (a property of the Go memory model with no TLA+ counterpart -- observed on the instrumented conformance run, not decided by TLC); bbolt's MVCC.",
+                text="Isolation.tla is model checked (one version per read transaction, no dirty reads) over all interleavings; recorded executions of the real library -- 8 "
+                     "readers against a writer with multi-call and rolled-back transactions -- are validated by TLC against the same specification (trace acceptance with a "
+                     "binding self-test), and the same run is executed under the race detector together with concurrent parse / symbol-resolution / error-helper calls.",
+                technique="TLA+ model checked by TLC + traces recorded from the real code validated by TLC; race detector on the conformance driver"),
+})
+
 NOT_YET = {
     "C01": "check under construction in this session (Query.tla); not claimed until it runs clean on the unchanged tree",
     "C02": "check under construction (Query.tla / ScanAlgo.tla)",
